@@ -225,7 +225,13 @@ Fixpoint ser_shape_into (t : TypeP) (sh : IShape) : TypeP :=
 (* the pair of statements `if type is not None: serialize_type_into(..); if shape is not None:
    serialize_shape_into(..)` used by serialize_value_into and the TYPE_PROTO attributes *)
 Definition ser_type_shape (ty : option IType) (sh : option IShape) : TypeP :=
-  let t0 := match ty with Some t => ser_type t | None => TUnset None end in
+  let t0 := match ty with
+            | Some t => ser_type t
+            | None => match sh with
+                      | Some _ => TTensor None None None   (* shape without type: `tensor_type.SetInParent()` *)
+                      | None => TUnset None
+                      end
+            end in
   match sh with Some s => ser_shape_into t0 s | None => t0 end.
 
 (* ================================================================== protos: tensors *)
